@@ -12,6 +12,7 @@ import (
 	"sort"
 	"strings"
 	"sync"
+	"sync/atomic"
 	"time"
 
 	"verifsim/chain"
@@ -169,14 +170,40 @@ func selfExe() string {
 	return p
 }
 
+// budgetFor: wall-clock cap of the exploration. The amount of exploration is fixed by worldsFor (the same world
+// indexes on every machine, so that what a check explores does not depend on the machine's speed or load); the
+// cap only bounds the time on a machine that is much slower than the one the counts were calibrated on.
 func budgetFor(tier string) time.Duration {
 	if s := envInt("VERIF_BUDGET_S", 0); s > 0 {
 		return time.Duration(s) * time.Second
 	}
 	if tier == "thorough" {
-		return 600 * time.Second
+		return 2400 * time.Second
 	}
-	return 45 * time.Second
+	return 180 * time.Second
+}
+
+// worldsFor: how many worlds (indexes 0..N-1 of the seed) a check explores. Calibrated so that quick takes
+// about 45 s and thorough about 10 minutes on 16 idle cores.
+func worldsFor(prop, tier string) int {
+	if n := envInt("VERIF_WORLDS", 0); n > 0 {
+		return int(n)
+	}
+	q := 1400
+	switch prop {
+	case "C04", "C07", "C10", "C14", "C19", "C01":
+		q = 1000
+	case "C08":
+		q = 220
+	case "C18":
+		q = 24000
+	case "C20":
+		q = 1500
+	}
+	if tier == "thorough" {
+		return q * 12
+	}
+	return q
 }
 
 func workersN() int {
@@ -202,7 +229,8 @@ func runCheck(prop, tier string, seed uint64) int {
 	budget := budgetFor(tier)
 	deadline := t0.Add(budget)
 	nw := workersN()
-	fmt.Printf("VERIF_SEED=%d property=%s tier=%s engine=%s workers=%d budget=%s\n", seed, prop, tier, engineOf(prop), nw, budget)
+	nWorlds := worldsFor(prop, tier)
+	fmt.Printf("VERIF_SEED=%d property=%s tier=%s engine=%s workers=%d worlds=%d time-cap=%s\n", seed, prop, tier, engineOf(prop), nw, nWorlds, budget)
 
 	// 1. witnesses of known findings and regression inputs of fixed ones
 	knownLines, code := replayWitnesses(prop, known, agg)
@@ -214,20 +242,31 @@ func runCheck(prop, tier string, seed uint64) int {
 	var wg sync.WaitGroup
 	stop := make(chan struct{})
 	var stopOnce sync.Once
+	var nextIdx int64 // worlds are handed out in chunks of consecutive indexes
+	chunk := 40
+	if nWorlds/(nw*4) < chunk {
+		chunk = nWorlds/(nw*4) + 1
+	}
 	for wi := 0; wi < nw; wi++ {
 		wg.Add(1)
 		go func(wi int) {
 			defer wg.Done()
-			next := wi
 			for time.Now().Before(deadline) {
 				select {
 				case <-stop:
 					return
 				default:
 				}
-				const chunk = 40
+				next := int(atomic.AddInt64(&nextIdx, int64(chunk))) - chunk
+				if next >= nWorlds {
+					return
+				}
+				cnt := chunk
+				if next+cnt > nWorlds {
+					cnt = nWorlds - next
+				}
 				cmd := exec.Command(selfExe(), "worker", "--property", prop, "--tier", tier, "--seed", fmt.Sprint(seed),
-					"--start", fmt.Sprint(next), "--stride", fmt.Sprint(nw), "--count", fmt.Sprint(chunk), "--deadline", fmt.Sprint(deadline.Unix()))
+					"--start", fmt.Sprint(next), "--stride", "1", "--count", fmt.Sprint(cnt), "--deadline", fmt.Sprint(deadline.Unix()))
 				cmd.Env = append(os.Environ(), "GOMAXPROCS=2")
 				out, err := cmd.StdoutPipe()
 				if err != nil {
@@ -269,7 +308,6 @@ func runCheck(prop, tier string, seed uint64) int {
 					stopOnce.Do(func() { close(stop) })
 					return
 				}
-				next += chunk * nw
 				if n == 0 {
 					return
 				}
